@@ -4,8 +4,8 @@ set_option linter.unusedSimpArgs false
   Equality, generalisation, common type and inferred types.
 
   Go → Lean map:
-    <X>type.go (t *XType) Equals                 → `tyEq`  (Enum / Pattern / Variant: equal length + one-way inclusion, exactly
-                                                   as `utils.ContainsAllStrings` / `px.IncludesAll` compute it)
+    <X>type.go (t *XType) Equals                 → `tyEq`  (Enum / Variant: equal length + inclusion both ways; Pattern: equal length +
+                                                   one-way inclusion, exactly as `px.IncludesAll` computes it)
     types.go generalize (= px.Generalize)        → `generalize`   (Generic() if Generalizable, else Default() if parameterized)
     types.go px.GenericType                      → `genericType`  (Generic() if Generalizable, else unchanged)
     <X>type.go Generic()                         → `genericOf`
@@ -41,7 +41,10 @@ def tyEq (a b : Ty) : Bool :=
   | .tspan r => (match b with | .tspan r' => r == r' | _ => false)
   | .strSz r => (match b with | .strSz r' => r == r' | _ => false)
   | .strVal s => (match b with | .strVal s' => s == s' | _ => false)
-  | .enum vs ci => (match b with | .enum vs' ci' => ci == ci' && vs.length == vs'.length && subsetStr vs' vs | _ => false)
+  | .enum vs ci =>
+      (match b with
+       | .enum vs' ci' => ci == ci' && vs.length == vs'.length && subsetStr vs' vs && subsetStr vs vs'
+       | _ => false)
   | .pattern rs => (match b with | .pattern rs' => rs.length == rs'.length && subsetStr rs rs' | _ => false)
   | .regexp s => (match b with | .regexp s' => s == s' | _ => false)
   | .coll r => (match b with | .coll r' => r == r' | _ => false)
@@ -52,7 +55,10 @@ def tyEq (a b : Ty) : Bool :=
        | .tuple ts' g' => ts.length == ts'.length && tupleSize ts g == tupleSize ts' g' && tyEqL ts ts'
        | _ => false)
   | .struct ms => (match b with | .struct ms' => ms.length == ms'.length && tyEqM ms ms' | _ => false)
-  | .variant ts => (match b with | .variant ts' => ts.length == ts'.length && tyEqIncl ts ts' | _ => false)
+  | .variant ts =>
+      (match b with
+       | .variant ts' => ts.length == ts'.length && tyEqIncl ts ts' && tyEqIncl ts' ts
+       | _ => false)
   | .optional t => (match b with | .optional t' => tyEq t t' | _ => false)
   | .notUndef t => (match b with | .notUndef t' => tyEq t t' | _ => false)
   | .typ t => (match b with | .typ t' => tyEq t t' | _ => false)
@@ -113,7 +119,7 @@ def keyEq : Ty → Ty → Bool
   | .coll r, .coll r' => r == r'
   | .array e r, .array e' r' => keyEq e e' && r == r'
   | .hash k v r, .hash k' v' r' => keyEq k k' && keyEq v v' && r == r'
-  | .tuple ts g, .tuple ts' g' => keyEqL ts ts' && optRngBeq g g'
+  | .tuple ts g, .tuple ts' g' => keyEqL ts ts' && tupleSize ts g == tupleSize ts' g'
   | .struct ms, .struct ms' => keyEqM ms ms'
   | .variant ts, .variant ts' => keyEqL ts ts'
   | .optional t, .optional t' =>
